@@ -90,7 +90,7 @@ struct Scenario {
         }
         j.set("history", h);
         Json p = Json::object();
-        p.set("p_create", policy.pCreate).set("p_yield", policy.pYield).set("pick", policy.pick).set("worker_mode", policy.workerMode)
+        p.set("p_create", policy.pCreate).set("p_yield", policy.pYield).set("p_deep", policy.pDeep).set("pick", policy.pick).set("worker_mode", policy.workerMode)
          .set("fixed_worker", policy.fixedWorker).set("scribble", policy.scribble).set("team_shrink", policy.teamShrink);
         j.set("policy", p);
         j.set("sched_seed", (long long)schedSeed);
@@ -142,6 +142,7 @@ struct Scenario {
             const Json& p = j.at("policy");
             s.policy.pCreate = p.getReal("p_create", 0);
             s.policy.pYield = p.getReal("p_yield", 0);
+            s.policy.pDeep = p.getReal("p_deep", 0);
             s.policy.pick = int(p.getInt("pick", 0));
             s.policy.workerMode = int(p.getInt("worker_mode", 0));
             s.policy.fixedWorker = int(p.getInt("fixed_worker", 1));
